@@ -63,7 +63,15 @@ def main(p):
     if p["kind"] in ("equiv", "zequiv"):
         return equivariance(p, rng)
     shape = tuple(p["shape"])
-    x = rng.normal(size=shape) * 3 + 1
+    if "x" in p and p["kind"] != "zscore":
+        # the solver's data first, then tie-heavy and generic data
+        for xx in (np.array(p["x"], dtype=np.float64), np.round(rng.normal(size=shape)) * 0 + (np.arange(int(np.prod(shape))).reshape(shape) % 2 == 0) * (np.arange(shape[0])[:, None] if len(shape) == 2 else 1.0),
+                   np.round(rng.normal(size=shape) * 2)):
+            q = {k_: v for k_, v in p.items() if k_ != "x"}
+            q["_x"] = np.asarray(xx, dtype=np.float64).tolist()
+            if main(q):
+                return 1
+    x = np.array(p["_x"], dtype=np.float64) if "_x" in p else rng.normal(size=shape) * 3 + 1
     axis = p.get("axis")
     axis = tuple(axis) if isinstance(axis, list) else axis
     k = p["kind"]
